@@ -60,6 +60,26 @@ def run(ctx: Ctx) -> None:
     out.unlink()
     if len(hists) != r.distinct - 1:
         raise MachineryError(f"emission incomplete: {len(hists)} of {r.distinct - 1}")
+    # longer histories: random behaviours of Session (tlc -simulate), executed and validated like the enumerated ones
+    from ..tlc import simulate_emitted
+
+    deep = 9
+    sr, srecs = simulate_emitted("MC_Session", f"SPECIFICATION Spec\nCONSTANTS\n  MaxOps = {deep}\n  Emit = TRUE\nPROPERTY Det\nPROPERTY Frame\nINVARIANT EmitCase\n", "c18s",
+                                 num=12 if ctx.quick else 150, depth=deep + 1, seed=ctx.seed + 1)
+    if sr.violated:
+        ctx.model_violation(sr, "MC_Session (simulation)")
+    seen = {tuple(x["hist"]) for x in hists}
+    longer = []
+    for x in srecs:
+        k = tuple(x["hist"])
+        if len(k) == deep and k not in seen:
+            seen.add(k)
+            longer.append(x["hist"])
+    longer = sorted(longer)[: (80 if ctx.quick else 1500)]
+    ctx.require("simulated histories longer than the exhaustive bound", len(longer), 40)
+    hists += [{"id": len(hists) + i + 1, "hist": h} for i, h in enumerate(longer)]
+    ctx.tlc_runs.append({"module": "MC_Session", "what": f"-simulate: random histories of {deep} operations", "generated": sr.generated, "distinct": len(longer), "depth": deep,
+                         "wall_s": round(sr.wall_s, 2)})
     ops = sorted({op for x in hists for op in x["hist"]})
     canon_runs = run_workers([{"id": i, "hist": [op]} for i, op in enumerate(ops)], 424242, "canon")
     canon = {x["steps"][0]["op"]: x["steps"][0]["fp"] for x in canon_runs}
